@@ -18,12 +18,14 @@ META = {
         "alone: each path's own conditions on out.len() are evaluated for lengths 0, N-1, N, N+1, N+2, 2N+7 and every variant; "
         "below N only Err(BufferIsTooSmall) may be reachable, from N on only Ok -- so an over-strong debug assertion or optimiser "
         "hint (`invariant!(out.len() == N)`) that panics for a merely larger buffer is reported."
+        "  Both serializers are decided by abstract evaluation (wmodel, DESIGN 9.5): outcome, returned size and write windows for every buffer length 0..N+1100 per variant and prefix mode; the idiom-based window rules are the fallback when a function cannot be evaluated completely (e.g. it contains a loop)."
     ),
     "trusted_base": ["rustc nightly front end and constant evaluator", "hex_simd::encode writes exactly 2*src.len() bytes into the Out slice (external contract)",
                      "core slice APIs (copy_from_slice, chunks_exact_mut, zip)"],
     "assumptions": [],
     "not_decided": ["hex_simd::encode internals"],
 }
+TECHNIQUE = 'abstract evaluation of both serializers for every buffer length of a dense range (outcome, returned size, write windows per variant and prefix mode), encoder write-set summaries'
 
 
 def run(ctx, FS):
